@@ -1,2 +1,32 @@
 """Sidecar contracts.  These files hold clauses only - never a statement of the code under verification."""
 from . import decls, helpers, models, abstract, utils  # noqa: F401
+
+# ---- cross-cutting tags -------------------------------------------------------------------------------------------------------
+# C06 (no internal error part-way): every function on the optimize() path is verified free of implicit exceptions (index,
+# unpack, None, divisor, unsupported operand) under its precondition, so each of them serves C06.
+# C09 (configuration and task untouched): every function on that path proves `heap_unchanged(...)` for the caller's objects.
+from pyvc.contract import REG as _REG
+
+_ON_PATH = ["helpers.sort_by_cost", "helpers.sort_and_trim", "helpers.best_agents", "helpers.worst_agents", "helpers.special_agents",
+            "helpers.average_fitness", "helpers.calculate_fitness", "helpers.get_pool_results",
+            "models.Task.get_variables", "models.Task.get_bounds", "models.Task.empty_solution", "models.Task.correct_solution",
+            "models.Task.initial_solution", "models.Task.solve", "models.Population.__init__", "models.OptimizationResult.__init__",
+            "abstract.OptimizationAbstract._fcn", "abstract.OptimizationAbstract._init_agent",
+            "abstract.OptimizationAbstract._init_agent_seeded", "abstract.OptimizationAbstract._generate_agents",
+            "abstract.OptimizationAbstract._init_population", "abstract.OptimizationAbstract.__should_stop__",
+            "abstract.OptimizationAbstract.__error_check__", "abstract.OptimizationAbstract._greedy_select_agent",
+            "abstract.OptimizationAbstract._greedy_select_population", "abstract.OptimizationAbstract._extend_and_trim_population",
+            "abstract.OptimizationAbstract._replace_and_trim_population"]
+_FRAMED = ["models.Task.get_variables", "models.Task.get_bounds", "models.Task.empty_solution", "models.Task.correct_solution",
+           "models.Task.initial_solution", "models.Task.solve", "abstract.OptimizationAbstract._fcn",
+           "abstract.OptimizationAbstract._init_agent", "abstract.OptimizationAbstract._init_agent_seeded",
+           "abstract.OptimizationAbstract._generate_agents", "abstract.OptimizationAbstract._init_population",
+           "abstract.OptimizationAbstract.__should_stop__", "abstract.OptimizationAbstract.__error_check__"]
+for _q in _ON_PATH:
+    _c = _REG.get("pyvolutionary." + _q)
+    if _c is not None and "C06" not in _c.properties:
+        _c.properties.append("C06")
+for _q in _FRAMED:
+    _c = _REG.get("pyvolutionary." + _q)
+    if _c is not None and "C09" not in _c.properties:
+        _c.properties.append("C09")
